@@ -50,6 +50,13 @@ class _:
                     for flip in (True, False):
                         for kind in ("tensor", "sptensor", "ktensor", "ttensor"):
                             yield dict(shape=list(shp), n=n, r=r, flip=flip, kind=kind, seed=rng.randrange(10**6))
+        # slices without any stored entry at the end / start of the mode (the unfolding must still have shape[n] rows)
+        for shp in [(5, 3, 2), (4, 4)]:
+            for n in range(len(shp)):
+                for r in (1, 2, shp[n]):
+                    for kind in ("tensor", "sptensor"):
+                        for where in ("last", "first"):
+                            yield dict(shape=list(shp), n=n, r=r, flip=True, kind=kind, empty_slice=where, seed=rng.randrange(10**6))
         # leading vectors whose largest and most negative entries have the same magnitude (sign rule ties)
         for shp in [(2, 3, 2), (4, 3), (3, 2, 2)]:
             for n in range(len(shp)):
@@ -64,6 +71,11 @@ class _:
         N = len(shp)
         if kind in ("tensor", "sptensor"):
             X, _, _ = _spectral(rs, shp, n, None, case.get("balanced", False))
+            if case.get("empty_slice"):
+                sl = [slice(None)] * N
+                sl[n] = shp[n] - 1 if case["empty_slice"] == "last" else 0
+                X = X.copy()
+                X[tuple(sl)] = 0.0
             obj = ttb.tensor(X.copy())
             if kind == "sptensor":
                 obj = obj.to_sptensor()
@@ -191,6 +203,17 @@ class _:
                 raise Fail("ktensor.symmetrize:not-idempotent", f"{case}")
             if bool(Ksym.issymmetric()) is not True or bool(K.issymmetric()) is not False:
                 raise Fail("ktensor.issymmetric", f"{case}")
+            # the test is exact: factors that differ by a rounding-size amount / by a small relative amount on large
+            # entries are not symmetric
+            for eps, scale in ((1e-9, 1.0), (1.0, 1e5)):
+                B = [A.copy() * scale for _ in range(N)]
+                B[N - 1][0, 0] += eps
+                Kn = ttb.ktensor([b.copy() for b in B], w.copy())
+                if bool(Kn.issymmetric()) is not False:
+                    raise Fail("ktensor.issymmetric:nearly-equal-factors-accepted", f"{case} eps={eps} scale={scale}")
+                ok, diffs = Kn.issymmetric(return_diffs=True)
+                if bool(ok) is not False or not (np.asarray(diffs) != 0).any():
+                    raise Fail("ktensor.issymmetric:diffs", f"{case}")
             return
         shp, grps, version = tuple(case["shape"]), case["grps"], case["version"]
         g = np.array(grps)
@@ -380,6 +403,19 @@ class _:
             K = ttb.ktensor.from_function(np.ones, shp, 2)
             if tuple(K.shape) != shp or K.ncomponents != 2 or not all((f == 1).all() for f in K.factor_matrices) or not (K.weights == 1).all():
                 raise Fail("ktensor.from_function", f"{case}")
+            # factor k is the function's answer to the request (shape[k], R) -- also for functions whose values depend
+            # on the requested shape
+            asked = []
+
+            def gen(s):
+                asked.append(tuple(int(x) for x in s))
+                return np.arange(float(np.prod(s))).reshape(s) + 10.0 * s[0]
+            Kg = ttb.ktensor.from_function(gen, shp, 3)
+            if asked != [(d, 3) for d in shp] or any(not np.array_equal(np.asarray(f), np.arange(float(d * 3)).reshape((d, 3)) + 10.0 * d) for f, d in zip(Kg.factor_matrices, shp)):
+                raise Fail("ktensor.from_function:shape-dependent-generator", f"{case}: asked {asked}")
+            Ke = ttb.ktensor.from_function(lambda s: np.eye(*s), shp, 2)
+            if any(not np.array_equal(np.asarray(f), np.eye(d, 2)) for f, d in zip(Ke.factor_matrices, shp)):
+                raise Fail("ktensor.from_function:eye", f"{case}")
             np.random.seed(3)
             Ka = ttb.ktensor.from_function(np.random.random_sample, shp, 2)
             np.random.seed(3)
